@@ -36,11 +36,11 @@ def _root(node):
 
 @obligation("C14", "absolute_paths", shards=16, budget={"quick": 400, "thorough": 1200},
             expect=["sections", "properties"],
-            bounds="1 Document + 3 Sections + 1 Property, every shape, names from {a, ab, b}; get_path() of every Section and Property of the document "
+            bounds="1 Document + 3 Sections + 1 Property, every shape, names from {a, ab, A} (a prefix pair and a pair differing in case only); get_path() of every Section and Property of the document "
                    "looked up from the Document and from every Section of it")
 def absolute_paths_ob(v):
     """Looking up get_path() of s (or p) from the document or from any Section returns that very object."""
-    uni = build(v, 3, 1, pool=["a", "ab", "b"])
+    uni = build(v, 3, 1, pool=["a", "ab", "A"])
     doc = uni.docs[0]
     secs, props = in_document(uni)
     starts = [doc] + secs
@@ -135,7 +135,7 @@ def traversals_ob(v):
 
 
 def _distinct_universe(v):
-    """Every shape over 1 Document + 4 Sections; names n0..n3 (no clash can occur)."""
+    """Every shape over 1 Document + 4 Sections; names n0, n1, twin, twin."""
     import odml
     uni = C.Universe()
     uni.docs.append(odml.Document())
@@ -144,16 +144,21 @@ def _distinct_universe(v):
         radix = 2 + i
         where = idx % radix
         idx //= radix
-        sec = odml.Section(name="n%d" % i, type="t")
+        # n0, n1 are unique; the last two Sections are both named "twin": in different branches they are equal in
+        # content (the iterators must tell objects apart by identity), as siblings they clash and the shape is dropped
+        sec = odml.Section(name="n%d" % i if i < 2 else "twin", type="t")
         if where > 0:
-            (uni.docs + uni.secs)[where - 1].append(sec)
+            try:
+                (uni.docs + uni.secs)[where - 1].append(sec)
+            except KeyError:
+                v.assume(False)
         uni.secs.append(sec)
     return uni
 
 
 def _check_traversal(v, start, max_depth, yield_self, filtered):
     def keep(obj):
-        return (not filtered) or obj.name in ("n1", "n3", "p1")
+        return (not filtered) or obj.name in ("n1", "twin", "p1")
     expected = [s for s in bfs(start, max_depth, yield_self) if keep(s)]
     try:
         got = list(start.itersections(max_depth=max_depth, yield_self=yield_self, filter_func=keep))
